@@ -326,7 +326,7 @@ structure StepAdds (acc acc' : Acc) (u : Utt) : Prop where
 
 def AliPart (acc1 acc2 : Acc) : Option Ali → Prop
   | none => acc2 = acc1
-  | some a' => ∃ v, a'.data = .vec v ∧ aliInfo acc1 (runsOf v) = .ok acc2
+  | some a' => aliInfo acc1 (runsOf a'.data.flat) = .ok acc2
 
 def RefPart (acc2 acc3 : Acc) : Option Ref → Prop
   | none => acc3 = acc2
@@ -349,10 +349,7 @@ theorem stepAdds_of_parts (acc acc2 acc3 : Acc) (f' : Feat) (ali' : Option Ali) 
       subst h2
       simp [Utt.aliVals, segCount]
     | some a' =>
-      obtain ⟨dt, dev, data⟩ := a'
-      obtain ⟨v, hv, hai⟩ := h2
-      dsimp only at hv
-      subst hv
+      have hai : aliInfo _ (runsOf a'.data.flat) = .ok acc2 := h2
       obtain ⟨g1, g2, g3, g4, g5, g6, g7, g8, g9⟩ := aliInfo_spec _ _ _ hai
       dsimp only at g1 g2 g3 g4 g5 g6 g7 g8 g9
       refine ⟨?_, ?_, ?_, g4, g5, g6, g7, g8, g9⟩
@@ -421,10 +418,7 @@ theorem infoStep_adds (validate : Bool) (fix : Option Nat) (st st' : St) (acc ac
           · cases h
           · rename_i acc2 hai
             have hpart : AliPart { acc with numFilts := f'.dims[1]?, totalFrames := acc.totalFrames + f'.T }
-                acc2 (some a2) := by
-              cases hd : a2.data with
-              | nd sh => rw [hd] at hai; cases hai
-              | vec v => rw [hd] at hai; exact ⟨v, hd, hai⟩
+                acc2 (some a2) := hai
             cases ref with
             | none =>
               dsimp only at h
